@@ -1,5 +1,6 @@
 #!/usr/bin/env python3
-"""final regression: every seeded change must still be caught by (one of) the checks recorded for it"""
+"""final regression: every seeded change must still be caught by (one of) the checks recorded for it.
+Usage: regress.py <k> <n>   (worker k of n; run n of them side by side; logs in /tmp/regress_<k>.log)"""
 import json, glob, os, subprocess, sys, time
 k, n = int(sys.argv[1]), int(sys.argv[2])
 wt = '/tmp/wt_r%d' % k
@@ -27,3 +28,5 @@ for i, d in enumerate(dirs):
     out.write('%s %s exit=%d %ds\n' % (os.path.basename(d), c, r.returncode, time.time() - t)); out.flush()
     subprocess.run('git checkout -- .', shell=True, cwd=wt)
 out.write('DONE\n')
+# scratch is removed again (disk space; nothing a registered command needs lives under /tmp)
+subprocess.run('git -C /repo worktree remove --force %s; rm -rf %s %s' % (wt, wt, scr), shell=True)
